@@ -46,6 +46,9 @@ def run(ctx: Ctx):
                 lazy = (n[0] + n[1]) % 3 == 0
                 evs.append(com_event(n, shifted, units, lazy, rng))
                 ctx.case(("com", n, shifted, units, lazy))
+                if (n[0] + n[1] + (1 if shifted else 0)) % 2 == 0:
+                    evs.append(com_event(n, shifted, units, lazy, rng, reuse=True))
+                    ctx.case(("com-reuse", n, shifted, units, lazy))
     for n in [(8, 8), (9, 7), (12, 10)] if quick else [(a, b) for a in (6, 7, 8, 9, 12) for b in (6, 7, 10)]:
         for mode in ((1, 0), (0, 1), (1, 1), (2, -1)):
             for samp in ((0.1, 0.1), (0.2, 0.15)):
@@ -53,6 +56,9 @@ def run(ctx: Ctx):
                     {(1, 0): "y_chunks", (0, 1): False, (1, 1): "x_chunks", (2, -1): "whole"}[mode]
                 evs.append(gradient_event(n, mode, samp, lazy=lazy))
                 ctx.case(("gradient", n, mode, samp, lazy))
+                if mode in ((1, 0), (1, 1)):
+                    evs.append(gradient_event(n, mode, samp, lazy=lazy, reuse=True))
+                    ctx.case(("gradient-reuse", n, mode, samp, lazy))
     ctx.exhaustive = not quick
     for e in evs[:1] + evs[-1:]:
         ctx.sample(e)
@@ -62,7 +68,7 @@ def run(ctx: Ctx):
 def replay(ctx: Ctx, case):
     e = case["event"]
     if e["k"] == "com":
-        ev = com_event(tuple(e["n"]), e["shifted"], e["units"], e["lazy"], random.Random(0))
+        ev = com_event(tuple(e["n"]), e["shifted"], e["units"], e["lazy"], random.Random(0), reuse=e.get("reuse", False))
     else:
         raise Machinery("gradient replays are re-run by the full check")
     ctx.case("replay")
